@@ -233,7 +233,7 @@ class JsonParser(object):
         """
         headings = json_table.get("headings", [])
         rows = json_table.get("rows", [])
-        table = model.Table(headings, rows=rows)
+        table = model.Table(headings, rows=rows, line=0)
         return table
 
 
